@@ -15,6 +15,9 @@ import (
 	"crypto/sha256"
 	"encoding/hex"
 	"fmt"
+	"os"
+	"path/filepath"
+	"sort"
 	"strings"
 
 	"github.com/arr-ai/arrai/pkg/arrai"
@@ -170,8 +173,94 @@ func probeOrder() string {
 	return sha([]byte(sb.String()))
 }
 
+// corpusFiles lists the arr.ai sources shipped with the repository that can be evaluated offline.
+func corpusFiles() []string {
+	root := os.Getenv("VERIF_REPO")
+	if root == "" {
+		root = "/repo"
+	}
+	var out []string
+	for _, dir := range []string{"examples", "contrib", "docs/docs", "syntax/stdlib", "syntax/embed"} {
+		filepath.Walk(filepath.Join(root, dir), func(p string, info os.FileInfo, err error) error {
+			if err != nil || info.IsDir() || !strings.HasSuffix(p, ".arrai") || strings.Contains(p, "/os/") {
+				return nil
+			}
+			b, err := os.ReadFile(p)
+			if err != nil {
+				return nil
+			}
+			src := string(b)
+			for _, bad := range []string{"//{github", "//{http", "//os.", "//net.", "//log.", "//deprecated.", "//{arr.ai"} {
+				if strings.Contains(src, bad) {
+					return nil
+				}
+			}
+			out = append(out, p)
+			return nil
+		})
+	}
+	sort.Strings(out)
+	return out
+}
+
+// runCorpus evaluates one shipped source file under this process's hash seed.
+func runCorpus(c *run.Ctx) {
+	files := corpusFiles()
+	if len(files) == 0 {
+		c.Probe("no-corpus")
+		return
+	}
+	p := files[c.Tape.Draw(len(files))]
+	b, _ := os.ReadFile(p)
+	ctx := arraictx.InitRunCtx(context.Background())
+	eval := func() (out []byte, repr string, failed bool) {
+		_, _, panicked := run.Guard(func() {
+			v, err := syntax.EvaluateExpr(ctx, p, string(b))
+			if err != nil {
+				failed = true
+				return
+			}
+			if _, isFn := v.(rel.Closure); isFn {
+				repr = "<function>"
+				return
+			}
+			var buf bytes.Buffer
+			if err := arrai.OutputValue(ctx, v, &buf, ""); err != nil {
+				failed = true
+				return
+			}
+			out = buf.Bytes()
+			repr = fu.Repr(v)
+		})
+		if panicked {
+			failed = true
+		}
+		return
+	}
+	o1, r1, f1 := eval()
+	o2, _, f2 := eval()
+	c.Step()
+	name := p[strings.LastIndex(p[:strings.LastIndex(p, "/")], "/")+1:]
+	c.Logf("corpus file %s", name)
+	txt := string(o1)
+	if len(txt) > 240 {
+		txt = txt[:240] + "..."
+	}
+	c.Res.Out = map[string]any{"lets": "", "order": probeOrder(), "exprs": []map[string]any{{
+		"feat": "corpus:" + name, "src": "file " + name, "out": sha(o1), "repr": sha([]byte(r1)), "err": f1, "stable": bytes.Equal(o1, o2) && f1 == f2, "text": txt}}}
+	c.Res.Nontrivial = !f1
+	c.Res.State = run.Fingerprint("corpus", name)
+	if c.Tape.Len()%1 == 0 {
+		c.Res.Sample = map[string]any{"corpus_file": name, "evaluates": !f1}
+	}
+}
+
 // Run evaluates the run's expressions under this process's hash seed.
 func Run(c *run.Ctx) {
+	if c.Knob("mode", "") == "corpus" {
+		runCorpus(c)
+		return
+	}
 	t := c.Tape
 	g := &gen{t}
 	size := func() int { return t.Range(9, 24) } // frozen keeps insertion order for <= 8 members
